@@ -94,6 +94,7 @@ func (c *conn) terminate(err error) error {
 	}
 	c.logger.Debug("Terminating connection")
 	c.cancel(err) // Cancel the server context
+	verifYield("srv.terminate.afterCancel", c)
 	// The tx channel is only swapped out, never closed: a concurrent send() may already have loaded it,
 	// and sending on a closed channel would panic. The write loop exits through the canceled context.
 	c.tx.Swap(chan txMsg(nil))
@@ -145,6 +146,7 @@ func (c *conn) readloop() {
 			msg: m,
 			err: err,
 		}
+		verifYield("srv.read.beforeRx", c)
 
 		select {
 		case c.rx <- resp:
@@ -172,6 +174,7 @@ func (c *conn) writeloop() {
 				if errors.Is(err, net.ErrClosed) {
 					err = io.ErrClosedPipe
 				}
+				verifYield("srv.write.beforeErr", c)
 				req.err <- err
 				close(req.err)
 				// Close the client
@@ -203,6 +206,7 @@ func (c *conn) send(msg *kmip.ResponseMessage) error {
 		return err
 	}
 	tx := c.tx.Load().(chan txMsg)
+	verifYield("srv.send.loaded", c)
 	// Buffered: the write loop reports a failed write even when the sender has already left
 	// through a canceled context, and must not block forever doing so.
 	errCh := make(chan error, 1)
